@@ -1230,6 +1230,8 @@ def static_cache(static_cache: RefMap[tp.Any, StaticCache]):
     yield
   finally:
     if GRAPH_CONTEXT.tmp_static_cache is not None:
+      # do not leave the cache installed for the next, unrelated transform
+      GRAPH_CONTEXT.tmp_static_cache = None
       raise ValueError(
         'GRAPH_CONTEXT.tmp_static_cache should be None, no context consumed it.'
       )
